@@ -28,6 +28,8 @@ PAIRS = {  # parse routine -> (skip routine, filter predicate)
 
 
 def run(ctx, prog):
+    from rules import scan
+    scan.run(ctx, prog)
     rule = "R-SKIPALLOC"
     allocs = {f.key for f in prog.q(*ALLOC)}
     n = 0
